@@ -72,6 +72,8 @@ pub fn scenarios() -> Vec<Scenario> {
         Scenario { name: "create-file-fd", ops: vec![o(Op::CreateFile { path: s("a/b/c/created"), flags: libc::O_RDWR, mode: 0o644 })] },
         Scenario { name: "create-file-excl-exists", ops: vec![o(Op::CreateFile { path: s("a/b/c/file"), flags: libc::O_RDWR | libc::O_EXCL, mode: 0o644 })] },
         Scenario { name: "mkdir-all-existing", ops: vec![o(Op::MkdirAll { path: s("a/b/c"), mode: 0o755 })] },
+        Scenario { name: "mkdir-all-on-file", ops: vec![o(Op::MkdirAll { path: s("a/b/c/file"), mode: 0o755 })] },
+        Scenario { name: "mkdir-all-on-link-to-file", ops: vec![o(Op::MkdirAll { path: s("a/link/file"), mode: 0o755 })] },
         Scenario { name: "mkdir-all-1", ops: vec![o(Op::MkdirAll { path: s("a/b/n1"), mode: 0o755 })] },
         Scenario { name: "mkdir-all-3-through-link", ops: vec![o(Op::MkdirAll { path: s("a/link/n1/n2/n3"), mode: 0o711 })] },
         Scenario { name: "mkdir-all-dangling", ops: vec![o(Op::MkdirAll { path: s("dangling/x"), mode: 0o755 })] },
